@@ -43,6 +43,7 @@ def gen_case(rng, tier):
     prof["prethread"] = rng.choice([0, 0, 0.3, 0.7])  # pre-existing partial threading
     prof["stale_links"] = rng.choice([0, 0, 0.5])
     prof["switches"] = rng.choice([0, 0, 0.4])  # two-way branches written as scf.index_switch
+    prof["partial"] = rng.choice([0, 0, 0.4])  # setups that only write some of the fields
     prof["local_callee"] = rng.choice([0, 0, 0.5])  # calls to a function of the module that sets up an accelerator itself
     prof["while_loops"] = rng.choice([0, 0, 0.4])
     prof["state_loops"] = rng.choice([0, 0, 0.6])  # hand-threaded loops that already carry an accelerator's state  # counted loops written as scf.while  # ... some of it stale (something was inserted after the IR had been threaded)
